@@ -137,14 +137,19 @@ def minimise(prop_id, mod, spec, sc, rule, budget_s=150, max_tests=120, decoy=No
             for o in a["ops"]:
                 for key in ("server", "pages", "polls"):
                     if isinstance(o.get(key), list) and len(o[key]) > 1:
-                        def test(lst, o=o, key=key):
+                        # the LAST scripted outcome is how the call finally ends ("faults stop"): it is never dropped,
+                        # or the shrunk scenario would fail for a different reason under the same rule name
+                        tail = [o[key][-1]] if key == "server" else []
+                        def test(lst, o=o, key=key, tail=tail):
                             old = o[key]
-                            o[key] = lst
-                            r = bool(lst) and ok(spec, sc)
+                            o[key] = lst + tail
+                            r = bool(o[key]) and ok(spec, sc)
                             if not r:
                                 o[key] = old
                             return r
-                        o[key] = _ddmin_list(list(o[key]), test)
+                        head = list(o[key][:-1]) if tail else list(o[key])
+                        res = _ddmin_list(head, test)
+                        o[key] = res + tail
                 if o.get("jitter"):
                     old = o["jitter"]
                     o["jitter"] = []
